@@ -275,7 +275,11 @@ class ndarray:
         if self.ndim == 2:
             return self._get2(key)
         if self.ndim == 0:
-            raise IndexError("0-d")
+            if key is Ellipsis or (isinstance(key, tuple) and key == ()):
+                return self if key is Ellipsis else self.items[0]
+            if isinstance(key, ndarray) and key.dtype == bool_:
+                return ndarray.of([self.items[0]] if builtins.bool(key.items[0]) else [], self.dtype)
+            raise IndexError("too many indices for array: array is 0-dimensional")
         n = self._shape[0]
         if isinstance(key, tuple):
             if len(key) == 2 and key[1] is None and isinstance(key[0], slice):
@@ -337,6 +341,19 @@ class ndarray:
     def __setitem__(self, key, val):
         self._check_w()
         dt = self.dtype
+        if self.ndim == 0:
+            # 0-d array: a[()] = v, a[...] = v, a[mask0d] = v
+            if isinstance(val, ndarray):
+                assert val.size == 1
+                val = val.items[0]
+            if isinstance(key, ndarray) and key.dtype == bool_:
+                m = key.items[0]
+                self._buf[self._idx[0]] = _coerce(ite(m, val, self._buf[self._idx[0]]), dt)
+            elif key is Ellipsis or key == ():
+                self._buf[self._idx[0]] = _coerce(val, dt)
+            else:
+                raise IndexError("too many indices for array: array is 0-dimensional")
+            return
         if self.ndim == 2:
             tgt = self._get2(key)
             if isinstance(tgt, ndarray):
@@ -1204,6 +1221,10 @@ def square(a):
 
 # power-of-two model ------------------------------------------------------------------
 def _ldexp1(v, e):
+    if isinstance(e, ndarray) and e.size == 1:
+        e = e.items[0]
+    if isinstance(v, ndarray) and v.size == 1:
+        v = v.items[0]
     if isinstance(e, SI):
         E = core.ENG
         lo, hi = E.exp_window
